@@ -1200,6 +1200,7 @@ def main():
     import readin2lean  # FrameCodec::read_in: resize / read / truncate of the input buffer
     import verify2lean  # VerifyData::verify_response: the client's decision on the response
     import parts2lean   # create_parts: the server's decision on the request and the head of its answer
+    import cstage2lean  # ClientHandshake::stage_finished
     gens = GENERATORS + [('Ctx.lean', ctx2lean.gen_ctx), ('CodecGen.lean', codec2lean.gen_codec),
                          ('HsGen.lean', hs2lean.gen_hs), ('CollGen.lean', coll2lean.gen_coll),
                          ('FrameGen.lean', frame2lean.gen_frame),
@@ -1210,7 +1211,8 @@ def main():
                          ('MaskGen.lean', mask2lean.gen_mask),
                          ('ReadInGen.lean', readin2lean.gen_readin),
                          ('VerifyGen.lean', verify2lean.gen_verify),
-                         ('PartsGen.lean', parts2lean.gen_parts)]
+                         ('PartsGen.lean', parts2lean.gen_parts),
+                         ('CStageGen.lean', cstage2lean.gen_cstage)]
     for name, fn in gens:
         try:
             text = fn(repo)
